@@ -449,7 +449,8 @@ class ProvRecord(object):
                     )
 
                 if (
-                    not is_collection
+                    # only the members of a collection may be multi-valued
+                    not (is_collection and attr == PROV_ATTR_ENTITY)
                     and attr in PROV_ATTRIBUTES
                     and self._attributes[attr]
                 ):
